@@ -468,14 +468,24 @@ CLEARLOC = Fn("Db::clearLocators", DBC, r"^void Db::clearLocators\(const ELoc& l
 GETLOCNUM = Fn("Db::getLocatorNumber", DBC, r"^int Db::getLocatorNumber\(const ELoc& locatorType\) const\s*$", csig="int getLocatorNumber(int locatorType)",
                rewrites=ELOC_RW + [(r"const PtrGeos& p = ", "const PtrGeos* p = &", 1), (r"\bp\.getLocatorNumber\(\)", "PtrGeos_getLocatorNumber(p)", 1)])
 NEXTLOC = Fn("Db::_getNextLocator", DBC, r"^int Db::_getNextLocator\(const ELoc& locatorType\) const\s*$", csig="int _getNextLocator(int locatorType)")
-SETLOC_RW = [
-    (r"\A\{", "{ VF_SNAPSHOT();", 1),
-    (r"PtrGeos& p = _p\[iloc\];", "PtrGeos* p = &_p[iloc];", 1),
-    (r"PtrGeos& p = _p\[locatorType\.getValue\(\)\];", "PtrGeos* p = &_p[locatorType];", 1),
-    (r"\bp\.getLocatorNumber\(\)", "PtrGeos_getLocatorNumber(p)", 1),
-    (r"\bp\.(findUIDInLocator|erase|resize|setLocatorByIndex)\(", r"PtrGeos_\1(p, ", 4),
-    (r"ELoc::UNKNOWN", "ELOC_UNKNOWN", 1),
+# generic lexical lowering of the C++ idioms used by the locator functions (optional rules: those that fire are listed in the evidence)
+DB_LOWER = [
+    (r"\bconst PtrGeos& (\w+) = ", r"const PtrGeos* \1 = &", "opt"),
+    (r"\bPtrGeos& (\w+) = ", r"PtrGeos* \1 = &", "opt"),
+    (r"\b_p\[([^\]]+)\]\.(\w+)\(\)", r"PtrGeos_\2(&_p[\1])", "opt"),
+    (r"\b_p\[([^\]]+)\]\.(\w+)\(", r"PtrGeos_\2(&_p[\1], ", "opt"),
+    (r"\bp\.(\w+)\(\)", r"PtrGeos_\1(p)", "opt"),
+    (r"\bp\.(\w+)\(", r"PtrGeos_\1(p, ", "opt"),
+    (r"\b(\w+)\.getValue\(\)", r"(\1)", "opt"),
+    (r"ELoc::UNKNOWN", "ELOC_UNKNOWN", "opt"),
+    (r"ELoc::fromValue\(", "(", "opt"),
+    (r"\bELoc (\w+);", r"int \1;", "opt"),
 ]
+SETLOC_RW = [(r"\A\{", "{ VF_SNAPSHOT();", 1)] + DB_LOWER
+GETLOC_COL = Fn("Db::getLocatorByColIdx", DBC, r"^bool Db::getLocatorByColIdx\(int icol,\s*\n\s*ELoc\* ret_locatorType,\s*\n\s*int\* ret_locatorIndex\) const\s*$",
+                csig="bool getLocatorByColIdx(int icol, int* ret_locatorType, int* ret_locatorIndex)", rewrites=DB_LOWER)
+GETLOC_UID = Fn("Db::getLocatorByUID", DBC, r"^bool Db::getLocatorByUID\(int iuid,\s*\n\s*ELoc\* ret_locatorType,\s*\n\s*int\* ret_locatorIndex\) const\s*$",
+                csig="bool getLocatorByUID(int iuid, int* ret_locatorType, int* ret_locatorIndex)", rewrites=DB_LOWER)
 SETLOC_SIG = r"^void Db::setLocatorByUID\(int iuid,\s*\n\s*const ELoc& locatorType,\s*\n\s*int locatorIndex,\s*\n\s*bool cleanSameLocator\)\s*$"
 SETLOC_CSIG = "void setLocatorByUID(int iuid, int locatorType, int locatorIndex, bool cleanSameLocator)"
 
@@ -520,8 +530,8 @@ def unit_setlocator(c, variant):
     post.append(wf(c))
     contract = "\n".join(req + ["__CPROVER_assigns(DB0, __CPROVER_object_whole(DBP), __CPROVER_object_whole(DBP0))"] +
                          ["__CPROVER_ensures(%s)" % x for x in post])
-    f = Fn("Db::setLocatorByUID", DBC, SETLOC_SIG, csig=SETLOC_CSIG, contract=contract, loops={1: cancel_loop(c, "iuid")}, rewrites=SETLOC_RW)
-    fns = [CHECKARG, IS_UID] + ptrgeos_fns(find_contract(c)) + [CLEARLOC, GETLOCNUM, NEXTLOC, f]
+    f = Fn("Db::setLocatorByUID", DBC, SETLOC_SIG, csig=SETLOC_CSIG, contract=contract, loops={1: cancel_loop(c, "iuid")}, nloops=1, rewrites=SETLOC_RW)
+    fns = [CHECKARG, IS_UID, IS_COL, GET_COL] + ptrgeos_fns(find_contract(c)) + [CLEARLOC, GETLOCNUM, NEXTLOC, GETLOC_COL, GETLOC_UID, f]
     native = r"""
 static void vf_native(void)
 {
@@ -554,7 +564,7 @@ static void vf_native(void)
                 inputs=[("DbS", "DB"), ("PtrGeos", "DBP", "NLOC"), ("int", "W_iuid"), ("int", "W_type"), ("int", "W_index")],
                 harness=harness("setLocatorByUID(W_iuid, W_type, W_index, 0)", c),
                 enforce="setLocatorByUID", replace=["PtrGeos_findUIDInLocator"], native=native,
-                backends=("minisat", "cadical"), timeout=900, split=(variant == "ok"),
+                backends=("minisat", "cadical"), timeout=900, split=(variant == "ok"), fallback_unwind=max(c.values()) + 2,
                 claim=claims[variant], assumptions=A(c) + ["cleanSameLocator == false in this unit; role type in [-1, NLOC)"], canaries=can)
 
 
